@@ -187,7 +187,9 @@ class Namespace(pydsdl.Any):
 
     def __eq__(self, other: object) -> bool:
         if isinstance(other, Namespace):
-            return self._full_namespace == other._full_namespace
+            # Identity is the DSDL name. The stropped name is not a unique identifier: stropping is one-way
+            # and can fold two sibling namespaces (e.g. "register" and "_register" in C) onto one token.
+            return self._namespace_components == other._namespace_components
         else:
             return False
 
@@ -195,7 +197,7 @@ class Namespace(pydsdl.Any):
         return self.full_name
 
     def __hash__(self) -> int:
-        return hash(self._full_namespace)
+        return hash(tuple(self._namespace_components))
 
     # +-----------------------------------------------------------------------+
     # | PRIVATE
